@@ -88,12 +88,55 @@ def names_upto(segs, depth):
     return out
 
 
+ABSDIR = "/tmp/c17abs"   # an absolute canary location without any dot segment
+DEEP = 45          # depth of the chain base/d/d/d/.. of existing directories (each holds a file `a`)
+
+
+def long_names(rng, absdir, nrand):
+    """Names with many segments: segment counts 1..40 (and 100, 1000), runs of empty segments of every length 0..40 at
+    the front / in the middle / at the end, `..`, `.`, hidden and backslash segments at every position 0..40, absolute-looking
+    tails after many segments; `d/d/../a` exists in the scratch tree down to depth DEEP so that joins can succeed."""
+    out = []
+    ab = absdir.lstrip("/") + "/a"
+    for k in list(range(0, 41)) + [44, 45, 46]:
+        pre = "d/" * k
+        out += [pre + "a", pre + "../" * (k + 1) + "canary", pre + "../" * (k + 1) + "a", pre + "/" + ab, pre + "/" + absdir + "/a", pre + "sub/../../canary" if k == 0 else pre + "../" * k + "sub/../../canary"]
+    for i in range(0, 41):
+        for x in ["..", ".", ".a", "", "a\\b", "..."]:
+            for rest in ([], ["a"], ["..", "a"], ["..", "..", "canary"]):
+                out.append("/".join(["d"] * i + [x] + rest))
+    for r in range(0, 41):
+        sl = "/" * r
+        out += [sl + "a", sl + "d/a", sl + "d/../../canary", sl + "sub/../../canary", sl + "../canary", sl + ab, sl + "/" + ab, sl + absdir + "/a", sl + "etc/hostname",
+                "d/" + sl + "a", "d" + sl + "../../canary", "d/d" + sl + "sub/../a", "d/a" + sl, "d" + sl, "d/" + sl + "/" + ab]
+    for c in (100, 1000):
+        out += ["d/" * c + "a", "/" * c + "a", "/" * c + ab, "/" * c + "sub/../../canary", "a/" * c + "../" * (c + 1) + "canary", "/".join(["d"] * 20 + [""] * c + ["..", "..", "canary"]),
+                "/".join([""] * c + ["d", "a"])]
+    pool = ["d", "d", "d", "", "", "a", "sub", "dir", "..", ".", ".a", "canary", "a\\b", "\0"]
+    for _ in range(nrand):
+        n = 1 + rng.below(40)
+        segs = [rng.choice(pool[:7]) for _ in range(n)]
+        for _ in range(rng.below(3)):
+            segs[rng.below(n)] = rng.choice(pool)
+        if rng.chance(1, 4):
+            segs += ["..", "..", "canary"] if rng.chance(1, 2) else ab.split("/")
+        out.append("/".join(segs))
+    seen, uniq = set(), []
+    for n in out:
+        if n not in seen:
+            seen.add(n); uniq.append(n)
+    return uniq
+
+
 def gen_pure(chk):
     rng = chk.rng
     cases = []
     names = names_upto(SEGS, 3)
     for b in BASES:
         for n in names:
+            cases.append([0] + enc(b) + enc(n))
+    for n in long_names(rng, ABSDIR, 20000 if chk.thorough else 2000):
+        for b in ("/srv/t", "t", "", "/srv/t/"):
             cases.append([0] + enc(b) + enc(n))
     exhaustive_n = len(cases)
     if chk.thorough:
@@ -130,19 +173,20 @@ def body(tag):
 
 
 def make_tree():
-    top = os.path.join(CACHE, "c17-tree", str(os.getpid()))
+    top = os.path.join(CACHE, "c17-tree", "run")      # fixed paths (replays name them); runs are serialised by Lock("c17-tree")
     shutil.rmtree(top, ignore_errors=True)
     root = os.path.join(top, "root")
     base = os.path.join(root, "base")
     inside = ["a", "a.", "a..b", "dir/a", "dir/a.", "dir/sub/a", "dir/dir/a", "sub/a", ".a", ".../a", "%2e%2e/a", "a\\b", "..\\a",
               "‥/a", "．．", "canary", "dir/canary", "sub/dir/a",
               # names that exist both inside and outside, the longest legal file name, blanks
-              L255, "dir/" + L255, "a ", " a", "dir/sub/canary", "base/a", "root/base/a"]
+              L255, "dir/" + L255, "a ", " a", "dir/sub/canary", "base/a", "root/base/a"] + \
+             ["d/" * k + "a" for k in range(1, DEEP + 1)] + ["d/sub/a", "d/d/sub/a", "d/canary"]
     outside = [os.path.join(root, "a"), os.path.join(root, "canary"), os.path.join(root, "dir", "a"), os.path.join(root, "sub", "a"),
                os.path.join(top, "a"), os.path.join(top, "canary"), os.path.join(root, "base2", "a"), os.path.join(root, "basea"),
                os.path.join(root, L255), os.path.join(root, "dir", L255), os.path.join(root, "dir", "sub", "a"), os.path.join(root, "dir", "sub", "canary"),
                os.path.join(top, "dir", "a"), os.path.join(root, "a "), os.path.join(root, " a"), os.path.join(top, "root", "a"), os.path.join(top, L255)]
-    absdir = "/tmp/c17abs%d" % os.getpid()
+    absdir = ABSDIR
     outside.append(os.path.join(absdir, "a"))
     tags = {}
     for i, rel in enumerate(inside):
@@ -163,7 +207,8 @@ def gen_e2e(chk, base, absdir, outside):
                 "%2e%2e/a", "..%2fa", "..\\..\\a", "..\\a", "‥/a", "．．/a", "․․/a", "..\0/a", "\0../a", "../base2/a", "../basea",
                 absdir + "/a", "/" + absdir + "/a", "//" + absdir.lstrip("/") + "/a", "dir/" + absdir + "/a"] + outside + \
                [os.path.relpath(o, base) for o in outside] + ["dir/" + os.path.relpath(o, os.path.join(base, "dir")) for o in outside] + \
-               ["a/" + "../" * k + "canary" for k in range(1, 6)] + ["dir/sub/" + "../" * k + "a" for k in range(1, 7)] + TRICKY
+               ["a/" + "../" * k + "canary" for k in range(1, 6)] + ["dir/sub/" + "../" * k + "a" for k in range(1, 7)] + TRICKY + \
+               long_names(rng, absdir, 6000 if chk.thorough else 600)
     names = targeted + names
     if chk.thorough:
         level = [[s] for s in SEGS_E2E]
@@ -173,7 +218,7 @@ def gen_e2e(chk, base, absdir, outside):
     hows = range(7)
     cases = []
     for j, n in enumerate(names):
-        if j < len(targeted) + 6174:
+        if j < len(targeted) + 6174 and (j < 300 or j >= len(targeted) or j % 7 < 3 or chk.thorough):
             for h in hows:
                 cases.append([1, h] + enc(n))
         else:
@@ -204,14 +249,16 @@ def cb_apply(cb, name, parent):
 def gen_names2(chk, outside, base):
     names = ["a", "dir/a", "sub/a", "canary", "../a", "../canary", "./a", "./../a", "../../a", "../../canary", "../dir/a", "dir/../a", "dir/../../a", "..", ".", "",
              "/a", "a/", "..\\a", "a\\b", ".a", "%2e%2e/a", "‥/a", "\0", "a\0", L255, "../" + L255, "sub/../../a", "../sub/a", "../base2/a", "../../base2/a",
-             "../basea", "x/../../../canary", "../../../../../../../../tmp/c17abs%d/a" % os.getpid()] + \
-            [os.path.relpath(o, base) for o in outside] + [os.path.relpath(o, os.path.join(base, "dir")) for o in outside] + names_upto(SEGS_E2E[:-1], 2)
+             "../basea", "x/../../../canary", "../../../../../../../../tmp/c17abs/a"] + \
+            [os.path.relpath(o, base) for o in outside] + [os.path.relpath(o, os.path.join(base, "dir")) for o in outside] + \
+            [x for k in (1, 13, 14, 15, 16, 17, 18, 31, 40) for x in ("/" * k + "sub/../../canary", "/" * k + "d/a", "d/" * k + "../" * (k + 1) + "canary", "d/" * k + "a",
+                                                                  "/" * k + "tmp/c17abs/a", "d/" * k + "/tmp/c17abs/a")] + names_upto(SEGS_E2E[:-1], 2)
     parents = ["main.html", "dir/main.html", "dir/sub/main.html", "../main.html", "/main.html", "x/y/z/main.html"]
     cases = []
     for j, n in enumerate(names):
         for cb in (0, 1, 2, 3):
             for how in (1, 2, 3, 4, 5):
-                if j >= 80 and not chk.thorough and (j + cb + how) % 3:
+                if j >= 140 and not chk.thorough and (j + cb + how) % 3:
                     continue
                 par = parents[(j + cb + how) % len(parents)] if cb else parents[(j + how) % 2]
                 cases.append((cb, how, par, n))
@@ -278,16 +325,17 @@ def main():
         chk.finish()
     hooks = hooks and hooks2
     mj = os.path.join(EXTRACT, "C17", "mjmodel")
-    top, base, absdir, tags, outside = make_tree()
-    try:
-        run_all(chk, mj, hooks, proofs_ok, top, base, absdir, tags, outside)
-    finally:
-        shutil.rmtree(top, ignore_errors=True)
-        shutil.rmtree(absdir, ignore_errors=True)
+    with Lock("c17-tree"):
+        top, base, absdir, tags, outside = make_tree()
         try:
-            os.rmdir(os.path.join(CACHE, "c17-tree"))
-        except OSError:
-            pass
+            run_all(chk, mj, hooks, proofs_ok, top, base, absdir, tags, outside)
+        finally:
+            shutil.rmtree(top, ignore_errors=True)
+            shutil.rmtree(absdir, ignore_errors=True)
+            try:
+                os.rmdir(os.path.join(CACHE, "c17-tree"))
+            except OSError:
+                pass
     chk.finish()
 
 
@@ -311,7 +359,7 @@ def run_all(chk, mj, hooks, proofs_ok, top, base, absdir, tags, outside):
         for i, c in enumerate(pure):
             b, j = dec(c, 1); n, _ = dec(c, j)
             segs = n.split("/")
-            hist["pure:segments=%d" % min(len(segs), 6)] += 1
+            hist["pure:segments=%s" % (len(segs) if len(segs) <= 5 else "6-15" if len(segs) <= 15 else "16-40" if len(segs) <= 40 else ">40")] += 1
             hist["pure:" + ("accepted" if mod[i][0] == 1 else "rejected")] += 1
             if len(segs) >= 2 and (mod[i][0] == 1 or not (segs[0].startswith(".") or "\\" in segs[0])):
                 nontriv.add(("p", b, n))
